@@ -117,8 +117,11 @@ def judge_session(expect, res):
             return f"no outcome recorded for {t}"
         if e == "bad":
             anybad = True
-            if o == "passed":
-                return f"{t} executes a wrong or missing snapshot but is reported as passed"
+            if not ("fail" in o or "error" in o):
+                return f"{t} executes a wrong or missing snapshot but is reported as {o}"
+        elif e == "skipped":
+            if o != "skipped":
+                return f"{t}: all snapshots hold and the test skips itself, but it is reported as {o}"
         elif o != "passed":
             return f"{t}: all snapshots hold but the test is reported as {o}"
     if anybad and res["rc"] == 0:
@@ -200,6 +203,59 @@ division by zero\\
 '''
 EXAMPLE_EXPECT = {"test_missing_changed_files": "bad", "test_missing_categories": "bad", "test_wrong_changed_files": "bad", "test_wrong_categories_create": "bad",
                   "test_correct": "good", "test_missing_raises": "bad", "test_missing_raises_quiet": "bad", "test_wrong_raises": "bad", "test_correct_raises": "good"}
+
+# a wrong / missing snapshot is executed, the test goes on (the comparison is not asserted) and then leaves through pytest.skip / pytest.xfail / importorskip, or the
+# comparison runs in a thread the test started: the run is not green
+EDGE_SRC = '''import threading
+from concurrent.futures import ThreadPoolExecutor
+
+import pytest
+
+from inline_snapshot import snapshot
+
+
+def test_wrong_then_skip():
+    ok = 1 == snapshot(2)
+    pytest.skip("the rest needs a database")
+
+
+def test_missing_then_skip():
+    ok = 5 == snapshot()
+    pytest.skip("later")
+
+
+def test_wrong_then_importorskip():
+    ok = 3 <= snapshot(2)
+    pytest.importorskip("a_module_that_does_not_exist_xyz")
+
+
+def test_wrong_in_thread():
+    seen = []
+    t = threading.Thread(target=lambda: seen.append(1 == snapshot(2)))
+    t.start()
+    t.join()
+    assert seen
+
+
+def test_missing_in_pool():
+    with ThreadPoolExecutor(max_workers=1) as pool:
+        assert pool.submit(lambda: 7 == snapshot()).result() in (True, False)
+
+
+def test_right_then_skip():
+    assert 1 == snapshot(1)
+    pytest.skip("fine")
+
+
+def test_right_in_thread():
+    seen = []
+    t = threading.Thread(target=lambda: seen.append(4 == snapshot(4)))
+    t.start()
+    t.join()
+    assert seen == [True]
+'''
+EDGE_EXPECT = {"test_wrong_then_skip": "bad", "test_missing_then_skip": "bad", "test_wrong_then_importorskip": "bad", "test_wrong_in_thread": "bad", "test_missing_in_pool": "bad",
+               "test_right_then_skip": "skipped", "test_right_in_thread": "good"}
 
 # wrong snapshots whose wrong part is controlled by the user (Is(), f-string, star-expression, a field that is no constructor argument): inline-snapshot
 # generates no change for that part, the test has to fail all the same - whatever is approved
@@ -300,6 +356,8 @@ def run(ctx: Ctx):
         items.append((src, expect, gen_config(ctx.rng)))
     for fl in ([], ["fix"], ["create", "fix", "trim", "update"], ["report"]):
         items.append((EXAMPLE_SRC, EXAMPLE_EXPECT, {"flags": fl, "mode": "example", "args": [f"--inline-snapshot={','.join(fl)}"] if fl else [], "stdin": b""}))
+    for fl in ([], ["fix"], ["create"], ["create", "fix", "trim", "update"], ["report"]):
+        items.append((EDGE_SRC, EDGE_EXPECT, {"flags": fl, "mode": "edge", "args": [f"--inline-snapshot={','.join(fl)}"] if fl else [], "stdin": b""}))
     for fl in ([], ["fix"], ["update"], ["create", "fix", "trim", "update"], ["report"], ["short-report"]):
         items.append((UNMANAGED_SRC, UNMANAGED_EXPECT, {"flags": fl, "mode": "unmanaged", "args": [f"--inline-snapshot={','.join(fl)}"] if fl else [], "stdin": b""}))
     results = tmap(run_session, items)
